@@ -39,8 +39,8 @@ INST = (
      I('disc_next_n3_any', 'disconnected', DISC, N=3, trynext=True, session=False, tiers=T, timeout_s=600),
      I('disc_redirect', 'disconnected', DISC, redirect=True),
      I('disc_redirect_n2_sm', 'disconnected', DISC, redirect=True, N=2, L=5, req=1, tiers=T),
-     # demonstration of the known finding (only runs while the key is listed in known_findings.txt)
-     I('disc_redirect_in_session', 'disconnected', DISC, redirect=True, session=True, known_finding='redirect_keeps_session')]
+     # (fixed finding: a redirect that arrives while a session is established used to keep the session flag set)
+     I('disc_redirect_in_session', 'disconnected', DISC, redirect=True, session=True, N=1, L=0)]
     # mechanism 1: reset of per-stream state whenever a new stream starts
     + [I('start_client', 'start', 'socket started (handleStart)', L=0, N=1),
        I('start_nonsasl_pending', 'start', 'socket started (handleStart)', L=7),
@@ -60,6 +60,9 @@ INST = (
     + [I('sm_%s_%s%s' % (['enable', 'resume'][r], [['failed', 'enabled', 'other'], ['failed', 'resumed', 'other']][r][a], '_bind' if b else ''), 'sm_answer',
          'real request step (%s; resource binding %s), then handlePacketReceived(%s)' % (['startSmEnable', 'startSmResume'][r], ['not offered', 'offered'][b], ['<failed xmlns=urn:xmpp:sm:3/>', ['<enabled id resume?/>', '<resumed h=<any u32> previd/>'][r], 'one-letter element in urn:xmpp:sm:3'][a]),
          session=False, ev=r | a << 1 | b << 3, tiers=Q if (r, a, b) in ((0, 1, 0), (1, 1, 1), (1, 0, 1), (1, 0, 0)) else T) for r in (0, 1) for a in (0, 1, 2) for b in (0, 1)]
+    + [I('bind_%s%s' % (['result', 'error', 'nobind'][a], '_sm' if m else ''), 'bind_answer',
+         'real startResourceBinding step (stream management %s), then handlePacketReceived(%s)' % (['not offered', 'offered'][m], ['<iq type=result id=ID><bind><jid>1..2 units, full JID or not</jid></bind></iq>', '<iq type=error id=ID><bind/></iq>', '<iq type=result id=ID/>'][a]),
+         session=False, ev=a | m << 2, tiers=Q if (a, m) in ((0, 0), (0, 1)) else T) for a in (0, 1, 2) for m in (0, 1)]
     # local disconnect request, socket error, stream error
     + [I('disconnect_host', 'disconnect_host', 'disconnectFromHost()', L=0),
        I('disconnect_then_disconnected', 'disconnect_then_disconnected', 'disconnectFromHost(), then socket disconnected', L=0),
@@ -82,7 +85,30 @@ SPEC = dict(
              loop_bounds={r'^_ZNSt6ranges14__copy_or_move': 110},
              instances=INST),
     ],
-    bounds=[],
-    assumptions=[],
-    outside=[],
+    bounds=[
+        'single inductive steps: ONE event applied to an ARBITRARY private state of QXmppOutgoingClient / QXmppOutgoingClientPrivate: isAuthenticated, sessionStarted, bindModeAvailable, authenticationMethod, stream id / from / version (<= 2 arbitrary UTF-16 units each), StreamAckManager enabled flag and 32-bit counters, C2sStreamManager {smAvailable, canResume, enabled, streamResumed, smId <= 2 units, pending request none / resume / enable}, carbons and CSI flags, FAST token flag, user / domain / resource <= 2 units, socket connected or not; per instance fixed (case split): which negotiation step listens (all 7 alternatives of the listener variant + a legacy-auth step with a pending query), 0..3 known server addresses (host <= 2 units, any port, TCP or TLS) with the index of the next one, next-address selection (TryNext) and pending see-other-host redirect (host <= 2 units, any port)',
+        'outstanding IQ requests: 0..2 pending requests (ids of 1 resp. 2 units, addressees 1..2 units, promises unfinished, nobody attached yet); request table model capacity 3',
+        'events: socket disconnected; socket started; openSession; disconnectFromHost; socketError(any QAbstractSocket::SocketError, socket connected or not); handleStreamError(see-other-host | any of the 25 defined conditions, text <= 2 units); two-event compositions: disconnectFromHost + socket disconnected, see-other-host + socket disconnected; callers of openSession: handleStreamFeatures after authentication (bind / stream management offered or not, session / CSI modes arbitrary) and the answer to a REAL startSmEnable / startSmResume step (<failed/>, <enabled id<=2 resume?/>, <resumed h=any u32 previd<=2/>, a one-letter element of the sm namespace)',
+        'every step re-establishes what the next one assumes (after socket disconnected: not authenticated, no session; after socket started: per-stream state empty; TryNext only while an address is left and no session exists), so the per-event claims hold along every sequence of these events - i.e. for every cut point of a connection - as long as the stated bounds hold',
+        'quick tier = a subset of the case combinations (every mechanism and every branch of _q_socketDisconnected / socketError / handleStreamError at least once); thorough tier = all listed combinations, plus the address index left symbolic (n3_any)',
+        'socket write log capacity 4, connect log capacity 2, signal slots 8 (asserted as model limits)',
+    ],
+    assumptions=[
+        'QXmppOutgoingClient and QXmppOutgoingClientPrivate live in typed, unconstructed storage and are built field by field (the real constructor creates sockets, timers and connections); QXmppConfiguration is the REAL class set through its setters; PingManager = two timer addresses (QTimer::stop / start are ghost counters)',
+        'representation invariant of the pre-state: nextServerAddressIndex <= serverAddresses.size(); nextAddressState == TryNext only while index < size and no session is established (proved to be preserved by socketError in socket_error_*; between a socket error during start-up and the following disconnect no session is opened); openSession is entered with sessionStarted == false (what the disconnected steps establish for every new connection; the callers covered here are checked to call it at most once)',
+        'signals (connected, disconnected, errorOccurred) run through the REAL moc bodies of the build (/repo/_build/.../moc_QXmppOutgoingClient.cpp) into QMetaObject::activate of the shared QObject model; emissions are counted per signal with a snapshot of the SessionBegin / SessionEnd argument; nobody is connected to them (QXmppClient and the PingManager lambdas that stop the keep-alive timers on `disconnected` are outside)',
+        'XmppSocket is cut at sendData (ghost log of classification tags: what is serialised is classified by the TYPE of the serialiser - serializeXml<StreamOpen|QXmppBindIq|SmEnable|SmResume|CsiActive|...> overridden), connectToHost(ServerAddress) (ghost log of type / host / port), disconnectFromHost (counter) and isConnected (arbitrary flag); the TLS configuration calls of QXmppOutgoingClientPrivate::connectToHost (QSslConfiguration, setProxy, setPeerVerifyName) are no-ops; QSslSocket::isEncrypted / supportsSsl answer true in the features steps (TLS ordering is C04)',
+        'QXmppTask/QXmppPromise are the assume-guarantee shadow (contract established by C13): "completed exactly once" = the shadow asserts no promise is finished twice, and the harness reads the stored result (QXmppError carrying SendError::Disconnected)',
+        'std::unordered_map<QString,IqState> is the array-backed class-level model of harness/C07 (vp_iqmap.h); QMap<unsigned,QXmppPacket> (unacknowledged stanzas) is modelled as always empty - stanza accounting across sessions is C09',
+        'logging and log-text formatting (QString::arg, StreamErrorElement::streamErrorToString feeding the error text) are identity / empty models; QXmppUtils::generateStanzaUuid returns an arbitrary non-empty id; QNetworkProxy / QDateTime members are opaque words',
+    ],
+    outside=[
+        'the liveness half of the statement - "a following connection attempt succeeds", three consecutive real connection attempts with every cut point: that is a statement about the socket, the event loop, DNS and timers; what is encoded is that every cut leaves exactly the state from which the next attempt starts its negotiation from scratch (safety), not that the attempt terminates successfully',
+        'QXmppOutgoingClient::connectToHost() itself (resume address / explicit host / legacy SSL / DNS SRV look-ups via QDnsLookup) and the reconnect timer policy of QXmppClient (QXmppClient.cpp); the delivery of the socket signals (who calls _q_socketDisconnected / handleStart / socketError and when) is Qt',
+        'the keep-alive timers: the PingManager lambdas connected to connected / disconnected (connections are not modelled) and throwKeepAliveError',
+        'negotiation steps other than the ones listed: STARTTLS, SASL / SASL2 / FAST / legacy-auth exchanges (C04 - C06), SASL2 inline resumption / bind2 (onSasl2Success, onBind2Bound); for those only the reset at stream start and at disconnect is covered (their managers as listener alternatives in the pre-state)',
+        'non-conforming servers that repeat <stream:features/> after the session was opened (would open a second session), features that offer authentication again after authentication',
+        'observation, not asserted: bind2Bound is only consumed by openSession; if a connection is lost between SASL2 success and the following features, and the NEXT connection authenticates without SASL2, its SessionBegin reports bind2Used from the lost connection (handleStart does not clear it)',
+        'unacknowledged stanzas kept by StreamAckManager across a connection loss (C09), wrap-around of counters, strings longer than the stated bounds, more than 2 outstanding requests / 3 addresses',
+    ],
 )
